@@ -286,6 +286,14 @@ func (r *Reader) newBlockReader(nextOff uint64, wantTyp byte) (br *blockReader, 
 		return nil, nil
 	}
 
+	if blockTyp == blockTypeLog {
+		// blockSize is the inflated size. Incompressible data
+		// deflates to slightly more than that (stored blocks plus
+		// the zlib wrapper), so ask for the worst case; getBlock
+		// clamps to the end of the table.
+		blockSize += blockSize>>11 + 32
+	}
+
 	if blockSize > guessBlockSize {
 		block, err = r.getBlock(nextOff, blockSize)
 		if err != nil {
